@@ -54,8 +54,16 @@ def scaled(x):
     return int(f) if f.denominator == 1 else None
 
 
+def unwrap(e):
+    """the mapper stores a register's value as a one-part composite: look through it"""
+    while e._is_cmp and len(e.parts) == 1 and list(e.parts.keys())[0] == (0, e.size):
+        e = list(e.parts.values())[0]
+    return e
+
+
 def dump_mv(e):
     """canonical MV of a real (already simplified) value; None if outside the model's fragment"""
+    e = unwrap(e)
     if isinstance(e, vecw):
         ls = [dump_leaf(x) for x in e.l]
         return None if any(x is None for x in ls) else ["vecw", ls]
@@ -154,7 +162,7 @@ def main(tier):
                 if k < 0.6:
                     kids.append(rnd_expr(r, r.choice([0, 1, 2])))
                 elif k < 0.8:
-                    kids.append(vec([rnd_expr(r, 1), rnd_expr(r, 0)]))
+                    kids.append(vec([rnd_expr(r, 1), rnd_expr(r, 0)] + [rnd_expr(r, 1) for _ in range(r.choice([0, 0, 1, 2]))]))
                 elif k < 0.9:
                     kids.append(top(32))
                 else:
@@ -224,15 +232,18 @@ def main(tier):
                     for loc, _ in mm:
                         if loc._is_reg and (loc.etype & regtype.FLAGS) and not a.has(loc):
                             continue
-                        want = ev(st, a[loc])
-                        if want is None or want == "raise":
+                        own = unwrap(a[loc])
+                        if own._is_top:
                             continue
-                        mv = mm[loc]
+                        # every alternative of the map's own value must be covered
+                        wants = [ev(st, x) for x in (own.l if own._is_vec else [own])]
+                        mv = unwrap(mm[loc])
                         if mv._is_top:
                             continue
                         alts = list(mv.l) if mv._is_vec else [mv]
                         got = set(ev(st, x) for x in alts)
-                        if want not in got and None not in got and "raise" not in got:
+                        for want in wants:
+                          if want is not None and want != "raise" and want not in got and None not in got and "raise" not in got:
                             ck.report("C19:merge:not-covered", "merge(m1,m2)[%s] = %s does not cover map %d's value %#x" % (loc, mv, which, want),
                                       "oracle", "Amoco.Merge.Props.merge_entry_covers", case=dict(where, loc=str(loc)), real=str(mv), expected=want)
             # ---- model correspondence on register locations, values pre-simplified by the real code -------
@@ -241,7 +252,7 @@ def main(tier):
                 for loc, v in a:
                     if loc._is_ptr:
                         return None
-                    d = dump_mv(v.simplify(widening=widening))
+                    d = dump_mv(unwrap(v).simplify(widening=widening))
                     if d is None:
                         return None
                     out.append([str(loc), bool(loc._is_reg and (loc.etype & regtype.FLAGS)), d])
